@@ -197,6 +197,7 @@ func (c *AnalyzeCommand) createUseCaseConfig() app.AnalyzeUseCaseConfig {
 	// Handle analysis selection
 	if len(c.selectAnalyses) > 0 {
 		// If --select is used, only run selected analyses
+		config.ExplicitSelection = true
 		config.SkipComplexity = !c.containsAnalysis("complexity")
 		config.SkipDeadCode = !c.containsAnalysis("deadcode")
 		config.SkipClones = !c.containsAnalysis("clones")
